@@ -11,6 +11,7 @@
    there is none).  They are instantiated for the linear search (C02_linear_find_contract); the
    binary search of GuestMemoryMmap is an instance proved by the C10 package. *)
 From VM Require Import Prelude.MachInt Prelude.Outcome Impl.Address Impl.Guest Spec.C02 Suite.C02 Proofs.C02.
+From VM Require Import Impl.Mmap Proofs.LinkGuestMmap.
 
 (* the model (provided methods over the linear find_region) satisfies the executable checker on
    every layout, every query and all arguments *)
@@ -154,3 +155,140 @@ Print Assumptions C02_get_slice_iff.
 Print Assumptions C02_iter_order.
 Print Assumptions C02_region_defaults.
 Print Assumptions C02_checker_all_mapped.
+
+(* ---------------------------------------------------------------------------------------------
+   LINK to C10 (Proofs/LinkGuestMmap.v): the theorems above hold for an abstract find_region
+   meeting find_ok and were instantiated for a linear search only.  Here they are instantiated for
+   the REAL lookup of GuestMemoryMmap: [mmap_find_index] is the index computed by the binary
+   search of src/mmap/mod.rs:499-507 (Impl/Mmap.v), [mmap_inv L] = Mmap.wf_layout fst snd L is the
+   invariant C10 proves of every collection built by new / from_regions / from_arc_regions /
+   insert_region / remove_region ([reachable]). *)
+
+(* the binary search meets the find_region contract on every layout satisfying the invariant ... *)
+Theorem C02_mmap_find_contract : forall L a, mmap_inv L -> find_ok L a (mmap_find_index L a).
+Proof. exact mmap_find_index_ok. Qed.
+
+(* ... it is what the transcribed code (bisection loop with fuel, indexing panics, last_addr
+   arithmetic, either build profile) computes: never a panic, never out of fuel ... *)
+Theorem C02_mmap_find_is_the_code : forall m L a, mmap_inv L ->
+  Mmap.find_region fst snd m L a = Val (option_map (fun i => nth i L dreg) (mmap_find_index L a)).
+Proof. exact mmap_find_region_code. Qed.
+
+(* ... the invariant implies the hypothesis of the generic theorems, and on such layouts the
+   binary search and the linear search of the C02 / C03 suites return the same index *)
+Theorem C02_mmap_inv_wf : forall L, mmap_inv L -> wf_layout_gen L.
+Proof. exact mmap_wf_gen. Qed.
+
+Theorem C02_mmap_find_is_linear : forall L a, mmap_inv L -> a < W64 -> mmap_find_index L a = find_lin L a.
+Proof. exact mmap_find_is_linear. Qed.
+
+(* every GuestMemoryMmap reached by ANY construction history from valid regions (the regions
+   carrying their bytes: Guest.mem) satisfies the invariant, hence the contract *)
+Theorem C02_mmap_reachable : forall md (M : mem), reachable rstart rlen md M ->
+  mmap_inv (shape M) /\ wf_layout_gen (shape M) /\
+  (forall a, find_ok (shape M) a (mmap_find_index (shape M) a)) /\
+  (forall m a, Mmap.find_region fst snd m (shape M) a =
+               Val (option_map (fun i => nth i (shape M) dreg) (mmap_find_index (shape M) a))).
+Proof. exact mmap_reachable_lemma. Qed.
+
+Theorem C02_mmap_reachable_check_range : forall md m (M : mem) base n, reachable rstart rlen md M ->
+  base < W64 -> n < W64 -> 0 < n ->
+  exists b, gm_check_range mmap_find_index m (shape M) base n = Val b /\
+    (b = true <-> forall i, i < n -> base + i < W64 /\ Mapped (shape M) (base + i)).
+Proof. exact mmap_reachable_check_range_lemma. Qed.
+
+(* the instances of the generic theorems, one by one (same statements, find := mmap_find_index,
+   inv := mmap_inv, both hypotheses discharged) *)
+Theorem C02_mmap_find_iff :
+  forall L a i, mmap_inv L -> a < W64 ->
+  (mmap_find_index L a = Some i <-> (i < length L)%nat /\ In_reg (nth i L dreg) a).
+Proof. exact find_Some_iff_mmap. Qed.
+
+Theorem C02_mmap_find_none_iff :
+  forall L a, mmap_inv L -> a < W64 -> (mmap_find_index L a = None <-> ~ Mapped L a).
+Proof. exact find_None_iff_mmap. Qed.
+
+Theorem C02_mmap_to_region_addr :
+  forall L a, mmap_inv L -> a < W64 ->
+  gm_to_region_addr mmap_find_index L a =
+  Val (match mmap_find_index L a with Some i => Some (i, a - fst (nth i L dreg)) | None => None end).
+Proof. exact to_region_addr_lemma_mmap. Qed.
+
+Theorem C02_mmap_host_address :
+  forall L a, mmap_inv L -> a < W64 ->
+  gm_get_host_address mmap_find_index L a =
+  Val (match mmap_find_index L a with Some i => inl (i, a - fst (nth i L dreg)) | None => inr EInvalidGuestAddress end).
+Proof. exact host_address_lemma_mmap. Qed.
+
+Theorem C02_mmap_address_in_range_iff :
+  forall L a, mmap_inv L -> a < W64 -> (gm_address_in_range mmap_find_index L a = true <-> Mapped L a).
+Proof. exact address_in_range_lemma_mmap. Qed.
+
+Theorem C02_mmap_check_address_iff :
+  forall L a, mmap_inv L -> a < W64 ->
+  forall c, gm_check_address mmap_find_index L a = Some c <-> c = a /\ Mapped L a.
+Proof. exact check_address_lemma_mmap. Qed.
+
+Theorem C02_mmap_checked_offset_iff :
+  forall L b o, mmap_inv L -> b < W64 -> o < W64 ->
+  forall c, gm_checked_offset mmap_find_index L b o = Some c <-> c = b + o /\ b + o < W64 /\ Mapped L (b + o).
+Proof. exact checked_offset_lemma_mmap. Qed.
+
+Theorem C02_mmap_check_range_iff :
+  forall m L base n, mmap_inv L -> base < W64 -> n < W64 -> 0 < n ->
+  exists b, gm_check_range mmap_find_index m L base n = Val b /\
+    (b = true <-> forall i, i < n -> base + i < W64 /\ Mapped L (base + i)).
+Proof. exact check_range_lemma_mmap. Qed.
+
+Theorem C02_mmap_check_range_zero :
+  forall m L base, mmap_inv L -> base < W64 ->
+  gm_check_range mmap_find_index m L base 0 = Val (gm_address_in_range mmap_find_index L base).
+Proof. exact check_range_zero_lemma_mmap. Qed.
+
+Theorem C02_mmap_get_slice_iff :
+  forall L a c, mmap_inv L -> a < W64 -> 0 < c ->
+  exists r, gm_get_slice mmap_find_index L a c = Val r /\
+    ((exists x, r = inl x) <-> exists p, In p L /\ fst p <= a /\ a + c <= fst p + snd p) /\
+    (forall i off n, r = inl (i, off, n) -> mmap_find_index L a = Some i /\ off = a - fst (nth i L dreg) /\ n = c).
+Proof. exact get_slice_lemma_mmap. Qed.
+
+Print Assumptions C02_mmap_find_contract.
+Print Assumptions C02_mmap_find_is_the_code.
+Print Assumptions C02_mmap_inv_wf.
+Print Assumptions C02_mmap_find_is_linear.
+Print Assumptions C02_mmap_reachable.
+Print Assumptions C02_mmap_reachable_check_range.
+Print Assumptions C02_mmap_find_iff.
+Print Assumptions C02_mmap_find_none_iff.
+Print Assumptions C02_mmap_to_region_addr.
+Print Assumptions C02_mmap_host_address.
+Print Assumptions C02_mmap_address_in_range_iff.
+Print Assumptions C02_mmap_check_address_iff.
+Print Assumptions C02_mmap_checked_offset_iff.
+Print Assumptions C02_mmap_check_range_iff.
+Print Assumptions C02_mmap_check_range_zero.
+Print Assumptions C02_mmap_get_slice_iff.
+
+(* non-vacuity of the link: a collection built by from_regions then insert_region (out of order:
+   the inserted region sorts first) is reachable; the binary search finds the owning region *)
+Example C02_mmap_nonvacuous :
+  let r0 := {| rstart := 16; rbytes := [1;2;3;4] |} in
+  let r1 := {| rstart := 0; rbytes := [9;9] |} in
+  insert_region rstart rlen Debug [r0] r1 = Val (Ok [r1; r0]) /\
+  reachable rstart rlen Debug [r1; r0] /\ shape [r1; r0] = [(0, 2); (16, 4)] /\
+  mmap_find_index (shape [r1; r0]) 17 = Some 1%nat /\ mmap_find_index (shape [r1; r0]) 2 = None /\
+  Mmap.find_region fst snd Debug (shape [r1; r0]) 19 = Val (Some (16, 4)).
+Proof.
+  cbv zeta.
+  assert (K0 : Mmap.region_ok rstart rlen {| rstart := 16; rbytes := [1;2;3;4] |}).
+  { unfold Mmap.region_ok, rlen, lenN; cbn [rstart rbytes length]. rewrite W64_val. lia. }
+  assert (K1 : Mmap.region_ok rstart rlen {| rstart := 0; rbytes := [9;9] |}).
+  { unfold Mmap.region_ok, rlen, lenN; cbn [rstart rbytes length]. rewrite W64_val. lia. }
+  assert (E : insert_region rstart rlen Debug [{| rstart := 16; rbytes := [1;2;3;4] |}] {| rstart := 0; rbytes := [9;9] |}
+              = Val (Ok [{| rstart := 0; rbytes := [9;9] |}; {| rstart := 16; rbytes := [1;2;3;4] |}])) by (vm_compute; reflexivity).
+  split; [exact E|]. split.
+  - eapply R_insert; [|exact K1|exact E].
+    eapply (R_from rstart rlen Debug [{| rstart := 16; rbytes := [1;2;3;4] |}]); [constructor; [exact K0|constructor]|].
+    vm_compute. reflexivity.
+  - vm_compute. repeat split.
+Qed.
